@@ -15,7 +15,7 @@ let hex_of_bytes l = hex_of_string (string_of_str l)
 let bg = n_of_int 0xEE
 
 let raw_size = function
-  | "u8" -> 1 | "u32" | "f32" -> 4 | "u64" | "f64" -> 8 | "p3" -> 3 | "p12" | "v3f" -> 12 | "p24" -> 24
+  | "u8" | "b" -> 1 | "u32" | "f32" -> 4 | "u64" | "f64" -> 8 | "p3" -> 3 | "p12" | "v3f" -> 12 | "p24" -> 24
   | t -> failwith ("bad raw type " ^ t)
 
 let rec shape_of ty =
